@@ -349,4 +349,185 @@ theorem strPiece_spec (b : UInt8) (raw : Bool) (r s : List UInt8) (n n' : Nat) (
                         exact LitBody.ignored b _ _ _ p1 p2 p3 p4 hl
                       · exact LitBody.plain b _ _ _ hp.1 hp.2 h92 h13 hl
 
+
+theorem litBody_spec (s : List UInt8) : ∀ (raws : List Bool) (n : Nat) (t : Tape), rawOkFrom n s raws = true →
+    LitBody (litBody s raws t).1 n s := by
+  induction s with
+  | nil =>
+    intro raws n t h
+    simp [rawOkFrom] at h; subst h
+    simp only [litBody]
+    have := continuation_spec [41] [] 0 t LitBody.close
+    simpa using this
+  | cons b bs ih =>
+    intro raws n t h
+    simp only [litBody]
+    simp only [rawOkFrom] at h
+    -- the level after `b`
+    by_cases h40 : ((raws.head?.getD false) && b == 40) = true
+    · simp only [h40, if_true] at h
+      have hr := ih (raws.drop 1) (n + 1) t h
+      have hp := strPiece_spec b (raws.head?.getD false) _ bs n (n + 1) (litBody bs (raws.drop 1) t).2 hr (fun _ => rfl)
+        (fun h41 => by simp at h40 h41; rw [h40.2] at h41; simp at h41) (fun hf => by simp at h40 hf; simp [h40.2] at hf; exact absurd h40.1 (by simp [hf]))
+      have := continuation_spec _ (b :: bs) n (strPiece b (raws.head?.getD false) (litBody bs (raws.drop 1) t).1.head? (litBody bs (raws.drop 1) t).2).2 hp
+      simpa using this
+    · simp only [h40, Bool.false_eq_true, if_false] at h
+      by_cases h41 : ((raws.head?.getD false) && b == 41) = true
+      · simp only [h41, if_true] at h
+        simp at h
+        have hr := ih (raws.drop 1) (n - 1) t (by simpa using h.2)
+        have hp := strPiece_spec b (raws.head?.getD false) _ bs n (n - 1) (litBody bs (raws.drop 1) t).2 hr
+          (fun h => absurd h h40) (fun _ => by omega)
+          (fun hf => by simp at h41 hf; simp [h41.2] at hf; exact absurd h41.1 (by simp [hf]))
+        have := continuation_spec _ (b :: bs) n (strPiece b (raws.head?.getD false) (litBody bs (raws.drop 1) t).1.head? (litBody bs (raws.drop 1) t).2).2 hp
+        simpa using this
+      · simp only [h41, Bool.false_eq_true, if_false] at h
+        have hr := ih (raws.drop 1) n t h
+        have hp := strPiece_spec b (raws.head?.getD false) _ bs n n (litBody bs (raws.drop 1) t).2 hr
+          (fun h => absurd h h40) (fun h => absurd h h41) (fun _ => rfl)
+        have := continuation_spec _ (b :: bs) n (strPiece b (raws.head?.getD false) (litBody bs (raws.drop 1) t).1.head? (litBody bs (raws.drop 1) t).2).2 hp
+        simpa using this
+
+theorem rawOkFrom_nil (s : List UInt8) (n : Nat) : rawOkFrom n s [] = (n == 0) := by
+  induction s generalizing n with
+  | nil => rfl
+  | cons b bs ih => simp [rawOkFrom, ih]
+
+theorem raws_ok (s : List UInt8) (cand : List Bool) :
+    rawOkFrom 0 s (if rawOkFrom 0 s cand = true then cand else []) = true := by
+  by_cases h : rawOkFrom 0 s cand = true
+  · simp [h]
+  · simp [h, rawOkFrom_nil]
+
+theorem strTok_spec {R : Type} (pr : List UInt8 → Option R) (s : List UInt8) (t : Tape) : Spells pr (.str s) (strTok s t).1 := by
+  unfold strTok
+  simp only [Spells]
+  split
+  · right; exact ⟨_, rfl, hexBody_spec' s _⟩
+  · left
+    exact ⟨_, rfl, litBody_spec s _ 0 _ (raws_ok s _)⟩
+
+
+/-! ### values -/
+
+variable {R : Type}
+
+mutual
+/-- what the printer can spell: 32-bit integers, object numbers within `u64`, reals for which every variant
+    text derived from `f32::to_string` is a real token that `f32::from_str` maps back to the same real
+    (hypothesis on third-party code, validated by the harness stream `c04.f32`), no stream below the top -/
+def Renderable (fmt : R → List UInt8) (pr : List UInt8 → Option R) : Prim R → Prop
+  | .int i => -2147483648 ≤ i ∧ i ≤ 2147483647
+  | .real r => ∀ t, PdfSyntax.RealTok (realTok (fmt r) t).1 ∧ pr (realTok (fmt r) t).1 = some r
+  | .ref id gen => id ≤ 18446744073709551615 ∧ gen ≤ 18446744073709551615
+  | .arr xs => RenderableL fmt pr xs
+  | .dict kvs => RenderableE fmt pr kvs
+  | .stream _ _ => False
+  | _ => True
+def RenderableL (fmt : R → List UInt8) (pr : List UInt8 → Option R) : List (Prim R) → Prop
+  | [] => True
+  | x :: xs => Renderable fmt pr x ∧ RenderableL fmt pr xs
+def RenderableE (fmt : R → List UInt8) (pr : List UInt8 → Option R) : List (List UInt8 × Prim R) → Prop
+  | [] => True
+  | (_, v) :: rest => Renderable fmt pr v ∧ RenderableE fmt pr rest
+end
+
+theorem bnd_of_gap {g r : List UInt8} (hg : Gap g) (h : g ≠ [] ∨ startsRegular r = false) : Bnd (g ++ r) := by
+  by_cases hne : g = []
+  · subst hne
+    rcases h with h | h
+    · exact absurd rfl h
+    · cases r with
+      | nil => simp [Bnd]
+      | cons c r' => simpa [Bnd, startsRegular, isRegular_eq] using h
+  · exact gap_bnd hg hne r
+
+theorem gap_bnd_must (must : Bool) (t : Tape) (r : List UInt8) (h : must = false → startsRegular r = false) :
+    Bnd ((gap must t).1 ++ r) := by
+  obtain ⟨hg, hm⟩ := gap_spec must t
+  apply bnd_of_gap hg
+  cases must with
+  | true => exact Or.inl (hm rfl)
+  | false => exact Or.inr (h rfl)
+
+theorem spellsEntries_cons (pr : List UInt8 → Option R) (k : List UInt8) (v : Prim R) (rest : List (List UInt8 × Prim R))
+    (kb g1 tv g2 r : List UInt8) (h1 : NameBody kb k) (h2 : Gap g1) (h3 : Bnd (g1 ++ tv)) (h4 : Spells pr v tv) (h5 : Gap g2)
+    (h6 : SpellsEntries pr rest r) (h7 : PdfSyntax.needsBnd v = true → Bnd (g2 ++ r)) :
+    SpellsEntries pr ((k, v) :: rest) (47 :: kb ++ g1 ++ tv ++ g2 ++ r) := by
+  simp only [SpellsEntries]
+  exact ⟨kb, g1, tv, g2, r, rfl, h1, h2, h3, h4, h5, h6, h7⟩
+
+mutual
+
+theorem render_spells (fmt : R → List UInt8) (pr : List UInt8 → Option R) (v : Prim R) :
+    Renderable fmt pr v → ∀ t, Spells pr v (render fmt v t).1 := by
+  intro h t
+  cases v with
+  | null => simp [render, Spells, kwNull, PdfSyntax.kwNull]
+  | bool b => cases b <;> simp [render, Spells, kwTrue, kwFalse, PdfSyntax.kwTrue, PdfSyntax.kwFalse]
+  | int i =>
+    simp only [Renderable] at h
+    simp only [render, Spells]
+    exact ⟨intTok_spec' i t, h.1, h.2⟩
+  | real r =>
+    simp only [Renderable] at h
+    simp only [render, Spells]
+    exact h t
+  | str s => simp only [render]; exact strTok_spec pr s t
+  | name s =>
+    simp only [render, nameTok, Spells]
+    exact ⟨_, rfl, nameBody_spec' s t⟩
+  | ref id gen =>
+    simp only [Renderable] at h
+    simp only [render, Spells]
+    refine ⟨(natTok id t).1, (gap true (natTok id t).2).1, (natTok gen (gap true (natTok id t).2).2).1,
+      (gap true (natTok gen (gap true (natTok id t).2).2).2).1, rfl, natTok_spec' _ _, natTok_spec' _ _,
+      (gap_spec true _).1, (gap_spec true _).2 rfl, (gap_spec true _).1, (gap_spec true _).2 rfl, h.1, h.2⟩
+  | stream info inner => simp [Renderable] at h
+  | arr xs =>
+    simp only [Renderable] at h
+    simp only [render, Spells]
+    exact ⟨(gap false (renderElems fmt xs t).2).1, (renderElems fmt xs t).1, by simp, (gap_spec false _).1,
+      renderElems_spells fmt pr xs h t⟩
+  | dict kvs =>
+    simp only [Renderable] at h
+    simp only [render, Spells]
+    exact ⟨(gap false (renderEntries fmt kvs t).2).1, (renderEntries fmt kvs t).1, by simp, (gap_spec false _).1,
+      renderEntries_spells fmt pr kvs h t⟩
+
+theorem renderElems_spells (fmt : R → List UInt8) (pr : List UInt8 → Option R) (xs : List (Prim R)) :
+    RenderableL fmt pr xs → ∀ t, SpellsElems pr xs (renderElems fmt xs t).1 := by
+  intro h t
+  cases xs with
+  | nil => simp [renderElems, SpellsElems]
+  | cons x xs =>
+    simp only [RenderableL] at h
+    simp only [renderElems, SpellsElems]
+    refine ⟨_, _, _, rfl, render_spells fmt pr x h.1 _, (gap_spec _ _).1, renderElems_spells fmt pr xs h.2 t, ?_⟩
+    intro hb
+    apply gap_bnd_must
+    intro hm
+    simpa [needsBnd, hb] using hm
+
+theorem renderEntries_spells (fmt : R → List UInt8) (pr : List UInt8 → Option R) (kvs : List (List UInt8 × Prim R)) :
+    RenderableE fmt pr kvs → ∀ t, SpellsEntries pr kvs (renderEntries fmt kvs t).1 := by
+  intro h t
+  cases kvs with
+  | nil => simp [renderEntries, SpellsEntries]
+  | cons kv kvs =>
+    obtain ⟨k, v⟩ := kv
+    simp only [RenderableE] at h
+    simp only [renderEntries, nameTok]
+    apply spellsEntries_cons pr k v kvs _ _ _ _ _ (nameBody_spec' k _) (gap_spec _ _).1 ?_ (render_spells fmt pr v h.1 _)
+      (gap_spec _ _).1 (renderEntries_spells fmt pr kvs h.2 t) ?_
+    · apply gap_bnd_must
+      intro hm
+      simpa using hm
+    · intro hb
+      apply gap_bnd_must
+      intro hm
+      simpa [needsBnd, hb] using hm
+
+end
+
 end PdfSpec
